@@ -89,6 +89,9 @@ class Seq(cx.Ext):
     # ---- arithmetic
     def cx_binop(self, it, op, other, reflected):
         if self.boolean:
+            if isinstance(other, Seq) and other.boolean and isinstance(op, (ast.BitAnd, ast.BitOr)):
+                f = z3.And if isinstance(op, ast.BitAnd) else z3.Or
+                return Seq(self.length, lambda k: f(self.elem(k), other.elem(k)), None, 'bool', boolean=True)
             return NotImplemented
         if isinstance(other, Seq):
             # broadcasting of a length-1 sequence
@@ -118,6 +121,11 @@ class Seq(cx.Ext):
             if not c.eq(S):
                 return NotImplemented
             return Seq(self.length, lambda k: POW(I(k) + 1), lambda n: PS(I(n)), 'powers', dict(geo=(z3.RealVal(1),)))
+        return NotImplemented
+
+    def cx_unary(self, it, op):
+        if self.boolean and isinstance(op, ast.Invert):
+            return Seq(self.length, lambda k: z3.Not(self.elem(k)), None, 'bool', boolean=True)
         return NotImplemented
 
     def cx_cmp(self, it, op, other, reflected):
@@ -158,6 +166,20 @@ def seq_prelude():
             return v.psum(v.length)
         raise cx.Unsupported('np.sum argument')
 
+    def isclose(it, f, args, kw, node):
+        # dependency contract: |a - b| <= atol + rtol*|b| with the default tolerances (finite values)
+        a, b = args[:2]
+        rtol, atol = kw.get('rtol', 1e-5), kw.get('atol', 1e-8)
+        if not all(isinstance(t, (int, float)) for t in (rtol, atol)):
+            raise cx.Unsupported('np.isclose with symbolic tolerances')
+        ab = lambda t: z3.If(t >= 0, t, -t)
+        close = lambda x, y: ab(Rr(x) - Rr(y)) <= cx.R(float(atol)) + cx.R(float(rtol)) * ab(Rr(y))
+        if isinstance(a, Seq) and not isinstance(b, Seq):
+            return Seq(a.length, lambda k: close(a.elem(k), b), None, 'bool', boolean=True)
+        if not isinstance(a, Seq) and not isinstance(b, Seq) and all(cx.is_sym(t) or isinstance(t, (int, float)) for t in (a, b)):
+            return close(a, b)
+        raise cx.Unsupported('np.isclose of these values')
+
     def floor(it, f, args, kw, node):
         v = args[0]
         if cx.is_sym(v):
@@ -179,7 +201,7 @@ def seq_prelude():
             return v                # element-wise copy: same length, same elements
         from pyvc import prelude
         return prelude.TABLE['np.array'](it, f, args, kw, node)
-    return {'np.array': nparray, 'np.atleast_1d': nparray, 'np.arange': arange, 'np.cumsum': cumsum, 'np.sum': npsum, 'np.floor': floor, 'np.ceil': ceil, 'seq.copy': copy}
+    return {'np.array': nparray, 'np.atleast_1d': nparray, 'np.arange': arange, 'np.cumsum': cumsum, 'np.sum': npsum, 'np.floor': floor, 'np.ceil': ceil, 'seq.copy': copy, 'np.isclose': isclose}
 
 
 def r_hook(it, v, k):
